@@ -119,6 +119,11 @@ def run_grad(case, drv, op=None, dom=None, rg=None, tol=None, single=False, name
         if st3 == 'ok':
             if not close(jv, op(t)[0]):
                 viol = v('jvp', 'forward-mode derivative differs from A applied to the tangent')
+        # true forward-mode AD (dual numbers; torch.autograd.functional.jvp above uses the double-backward trick): custom
+        # autograd functions have their own jvp rule
+        st4, jf = call(lambda: torch.func.jvp(lambda z: op(z)[0], (x.detach(),), (t,))[1])
+        if st4 == 'ok' and viol is None and not close(jf, op(t)[0]):
+            viol = v('jvp-forward-ad', f'forward-mode (dual number) derivative at a {"complex" if xc else "real"} input differs from A applied to the tangent')
     return Outcome(key=('grad', cfg), viol=viol, branches=[f'{case.get("cfg", {}).get("kind", case["kind"])}:{case["dtype_x"]}/{case.get("dtype_c")}'], sample={k: v for k, v in case.items() if k != 'cfg'} | {'op': name})
 
 
